@@ -97,6 +97,13 @@ def execute(mod, case, log_on=False):
             if pr_mode == "terse":
                 _np.set_printoptions(threshold=5, edgeitems=1, precision=2, suppress=True, linewidth=40)
             sched.count("np_print:" + pr_mode)
+            # ... and the thread's decimal context (decimal.getcontext().prec lowered by a money-handling caller)
+            import decimal as _decimal
+            dec_mode = (case.get("config") or {}).get("decimal_prec") or (28, 28, 4)[(case.get("sched_seed", 0) >> 9) % 3]
+            if dec_mode not in (28, 4):
+                raise InvalidCase("decimal_prec")
+            _decimal.setcontext(_decimal.Context(prec=dec_mode))
+            sched.count("decimal_prec:%d" % dec_mode)
             # the property module works on a private copy: whatever the code under test does to data handed to it,
             # the case (= the replay file) stays what was generated, so a re-run is the same experiment
             stats = mod.run_case(copy.deepcopy(case), sched)
